@@ -14,7 +14,21 @@ pub struct Faults {
     pub fired: usize,
 }
 
+/// another instance acting on the same storage between two transactions of one request: before the
+/// `at_begin`-th transaction begin from now on, a complete upload (client created if absent, one version on the
+/// nil parent, committed) is made directly on the wrapped storage
+pub struct Intrude {
+    pub at_begin: usize,
+    pub client: Uuid,
+    pub version: Uuid,
+    pub data: Vec<u8>,
+    pub seen: usize,
+    pub fired: bool,
+    pub failed: bool,
+}
+
 pub struct LogStore {
+    pub intrude: Arc<Mutex<Option<Intrude>>>,
     pub inner: Box<dyn Storage>,
     pub log: Arc<Mutex<Vec<&'static str>>>,
     pub faults: Arc<Mutex<Faults>>,
@@ -41,7 +55,7 @@ fn injected() -> anyhow::Error {
 
 impl LogStore {
     pub fn new<S: Storage + 'static>(s: S) -> Self {
-        LogStore { inner: Box::new(s), log: Arc::new(Mutex::new(Vec::new())), faults: Arc::new(Mutex::new(Faults::default())), lock_until_begin: Arc::new(Mutex::new(None)) }
+        LogStore { intrude: Arc::new(Mutex::new(None)), inner: Box::new(s), log: Arc::new(Mutex::new(Vec::new())), faults: Arc::new(Mutex::new(Faults::default())), lock_until_begin: Arc::new(Mutex::new(None)) }
     }
     /// fail the given storage calls (index counted from the next call on; begin counts)
     pub fn set_plan(&self, plan: Vec<(usize, bool)>) {
@@ -68,6 +82,31 @@ struct LogTxn<'a> {
 
 impl Storage for LogStore {
     fn txn(&self, client_id: Uuid) -> anyhow::Result<Box<dyn StorageTxn + '_>> {
+        let fire = {
+            let mut g = self.intrude.lock().unwrap();
+            match g.as_mut() {
+                Some(i) => {
+                    let now = i.seen;
+                    i.seen += 1;
+                    if !i.fired && now == i.at_begin { i.fired = true; Some((i.client, i.version, i.data.clone())) } else { None }
+                }
+                None => None,
+            }
+        };
+        if let Some((c, v, d)) = fire {
+            let r = (|| -> anyhow::Result<()> {
+                let mut t = self.inner.txn(c)?;
+                if t.get_client()?.is_none() {
+                    t.new_client(Uuid::nil())?;
+                }
+                t.add_version(v, Uuid::nil(), d)?;
+                t.commit()?;
+                Ok(())
+            })();
+            if r.is_err() {
+                if let Some(i) = self.intrude.lock().unwrap().as_mut() { i.failed = true; }
+            }
+        }
         self.log.lock().unwrap().push("begin");
         match next_fault(&self.faults) {
             Some(false) => return Err(injected()),
